@@ -1,6 +1,6 @@
 (* RunTopK.v — token-level driver for the in-memory Top-K machine (machine 9). *)
-From GX.Model Require Import Base CMS Heap TopK.
-From GX.Runner Require Import RunCMS.
+From GX.Model Require Import Base CMS Heap TopK Codec Persist.
+From GX.Runner Require Import RunCMS RunGeneric RunHLL.
 
 Definition tentry (e : hentry) : tok := TL [TB (fst e); TN (snd e)].
 
@@ -8,19 +8,21 @@ Section Run.
 Variable orc : oracle.
 Let cpos := fun rows cols x => oracle_get orc [rows; cols] x.
 
-Definition topk_step (st : list (option topk)) (op : tok) : list (option topk) * tok :=
+Definition tkst := (topk_params * topk)%type.
+
+Definition topk_step (st : list (option tkst)) (op : tok) : list (option tkst) * tok :=
   match tok_L op with
-  | [TN 0; TN i; TN k; TN rows; TN cols] =>
+  | [TN 0; TN i; TN k; TN rows; TN cols; TN er; TN acc] =>
       match topk_new k rows cols with
-      | Ok t => (set_inst st (N.to_nat i) t, tout (fun _ => tunit) (Ok tt))
+      | Ok t => (set_inst st (N.to_nat i) (mkTP er acc, t), tout (fun _ => tunit) (Ok tt))
       | Err e => (st, tout (fun _ : unit => tunit) (Err e))
       | Panic e => (st, tout (fun _ : unit => tunit) (Panic e))
       end
   | [TN 1; TN i; TB x; TN c] =>
       match get_inst st i with
-      | Some t =>
+      | Some (p, t) =>
           match topk_insert cpos t x c with
-          | Ok t' => (set_inst st (N.to_nat i) t', tout (fun _ => tunit) (Ok tt))
+          | Ok t' => (set_inst st (N.to_nat i) (p, t'), tout (fun _ => tunit) (Ok tt))
           | Err e => (st, tout (fun _ : unit => tunit) (Err e))
           | Panic e => (st, tout (fun _ : unit => tunit) (Panic e))
           end
@@ -28,23 +30,39 @@ Definition topk_step (st : list (option topk)) (op : tok) : list (option topk) *
       end
   | [TN 2; TN i] =>
       match get_inst st i with
-      | Some t => (st, TL (map tentry (topk_values t)))
+      | Some (_, t) => (st, TL (map tentry (topk_values t)))
       | None => (st, T_INVALID)
       end
   | [TN 3; TN i] =>
       match get_inst st i with
-      | Some t => (st, TL (map tentry (t_heap t)))
+      | Some (_, t) => (st, TL (map tentry (t_heap t)))
       | None => (st, T_INVALID)
       end
   | _ => (st, T_INVALID)
   end.
 
-Fixpoint topk_run (st : list (option topk)) (ops : list tok) : list tok :=
+End Run.
+
+Definition topk_mut (s : tkst) (args : list tok) : tkst :=
+  match args with
+  | [TN i; TB v; TN f] =>
+      (fst s, mkTopk (t_k (snd s)) (t_sketch (snd s)) (setnth (t_heap (snd s)) (N.to_nat i) (v, f)))
+  | _ => s
+  end.
+Definition topk_gen (orc : oracle) :=
+  @gen_step tkst (fun s => enc_topk (fst s) (snd s)) (fun s => topk_write_ret (snd s))
+            (fun b => olet r := dec_topk b in let '(p, t, n, rest) := r in Ok ((p, t), n, rest))
+            (fun a b => topk_equals (fst a) (snd a) (fst b) (snd b))
+            (fun s => Ok (doc_topk (orc_ftext orc) (fst s) (snd s)))
+            (imp_topk (orc_fbits orc)) topk_mut.
+
+Fixpoint topk_run (orc : oracle) (st : list (option tkst)) (ops : list tok) : list tok :=
   match ops with
   | [] => []
-  | op :: t => let r := topk_step st op in snd r :: topk_run (fst r) t
+  | op :: t =>
+      let r := if is_generic op then topk_gen orc st op else topk_step orc st op in
+      snd r :: topk_run orc (fst r) t
   end.
-End Run.
 
 Definition run_topk_case (c : list tok) : tok :=
   match c with
